@@ -21,6 +21,16 @@ CLAIMS = {
                 'changeover distance max(dcrit[A],dcrit[B]) and range over the same pair classes; the TRACE halves are masked by K and !K over the same matrix entry and pair classes.',
         not_decided='numeric equality with the Newtonian sum, loop-domain equality with the mathematical pair set, tree multipole bound, compensated-summation accuracy',
         design_ref='3/C02'),
+    'C04': dict(
+        module='c04', level='other',
+        technique='polynomial identities (sympy) on pair updates, merge resolver and diagnostics; operator-sequence COM accounting; component isomorphism',
+        decided='every pair loop that updates both bodies satisfies m_A*dA + m_B*dB = 0 and uses only the pair indices; every x/y/z triple of the force loops and coordinate '
+                'transformations is one formula under an axis permutation; over every operator sequence of WHFast, SABA and MERCURIUS (all kernels, correctors, types, synchronisation states) '
+                'the net COM drift equals the net Kepler drift; the merge resolver conserves mass, momentum and centre of mass as polynomial identities; reb_simulation_angular_momentum '
+                'accumulates m (r x v) and reb_simulation_energy accumulates 1/2 m v^2 - G m m / r + offset exactly; the IAS15 compensated addition keeps its Kahan form and the closing '
+                'update has the right series denominators.',
+        not_decided='conservation along trajectories, energy error class per integrator (runtime numerics); hard-sphere collisions',
+        design_ref='3/C04'),
     'C05': dict(
         module='c05', level='other',
         technique='table/layout agreement (descriptor table folded from LLVM IR vs clang record layout) + typestate walk of header/payload byte accounting in writer and reader',
